@@ -26,7 +26,7 @@ from groups import C16 as c16, C01 as c01
 
 
 def prepare(tier):
-    c16.prepare(tier)        # type_specs.h: the text of _sexp_type_specs
+    import os as _os; _os.makedirs(c16.GENDIR, exist_ok=True); c16.prepare_types(tier)        # type_specs.h: the text of _sexp_type_specs
 
 
 GROUPS.append({"name": "equalp_bound", "label": "bounded", "harness": "harness/C15/equalp.c", "entry": "h_equalp", "flags": FLAGS[:2] + ["-DVM_NPAIRS=8", "-I" + c16.GENDIR],
